@@ -115,6 +115,35 @@ fn requote_lemma_over(n: usize, protected: &'static [u8], alphabet: bool) {
     forget(r);
 }
 
+/// One symbolic protected ASCII byte `p` (so every cell of the 128-bit protected table is exercised),
+/// every 3-byte input: decoded exactly when the escape is valid and its value is not `p`.
+fn requote_symbolic_protected() {
+    let bytes: [u8; MAXN] = kani::any();
+    let p: u8 = kani::any();
+    kani::assume(p < 128);
+    let prot = [p];
+    let q = Quoter::new(&[], &prot);
+    let r = q.requote(&bytes[..3]);
+    let esc = if bytes[0] == b'%' {
+        match (hexv(bytes[1]), hexv(bytes[2])) {
+            (Some(h), Some(l)) => Some((h << 4) | l),
+            _ => None,
+        }
+    } else {
+        None
+    };
+    match esc {
+        Some(v) if v != p => {
+            assert!(matches!(&r, Some(out) if out.len() == 1 && out[0] == v), "non-protected valid escape is decoded");
+        }
+        _ => assert!(r.is_none(), "protected or invalid escape is left alone"),
+    }
+    kani::cover!(esc == Some(p), "escape of the protected byte itself");
+    kani::cover!(esc.is_some() && esc != Some(p) && p == b'@', "protected '@', other escape decoded");
+    forget(r);
+    forget(q);
+}
+
 // `%/+` is the protected set actix-router uses for paths (`Url`), see url.rs
 #[kani::proof]
 #[kani::stub(tracing::callsite::DefaultCallsite::register, stub_tracing_register)]
@@ -184,26 +213,16 @@ fn c10_requote_no_protected_len3_t() {
     requote_lemma(3, b"");
 }
 
-/// hex pair decoding and the 128-bit protected table
+// (A harness on the private helpers `hex_pair_to_char` / `AsciiBitmap` was removed: it added nothing
+// over the requote lemmas and made the whole crate's harness build depend on private names — seed C19b
+// renamed the helper and turned every actix-router harness inconclusive.)
+
+// @timeout 2400
 #[kani::proof]
 #[kani::stub(tracing::callsite::DefaultCallsite::register, stub_tracing_register)]
-#[kani::unwind(4)]
-fn c10_hex_pair_and_bitmap() {
-    let a: u8 = kani::any();
-    let b: u8 = kani::any();
-    let r = hex_pair_to_char(a, b);
-    match (hexv(a), hexv(b)) {
-        (Some(h), Some(l)) => assert!(r == Some((h << 4) | l)),
-        _ => assert!(r.is_none()),
-    }
-    let c: u8 = kani::any();
-    let d: u8 = kani::any();
-    kani::assume(c < 128 && d < 128);
-    let mut m = AsciiBitmap::default();
-    m.set_bit(c);
-    assert!(m.bit_at(c));
-    assert!(m.bit_at(d) == (c == d), "exactly the set bit is set");
-    kani::cover!(r.is_some(), "valid hex pair");
+#[kani::unwind(8)]
+fn c10_requote_symbolic_protected_len3() {
+    requote_symbolic_protected();
 }
 
 #[cfg(test)]
